@@ -24,6 +24,11 @@ func (c *base64Padder) Read(buf []byte) (int, error) {
 	c.count += n
 
 	if err == io.EOF && c.count%4 != 0 {
+		if n > 0 {
+			// a reader may hand over its last bytes together with io.EOF: deliver them
+			// first, the padding follows on the next call
+			return n, nil
+		}
 		return c.pad(buf)
 	}
 	return n, err
